@@ -44,6 +44,7 @@ type Decls struct {
 	order []string
 	text  map[string]string
 	tags  map[string]int
+	tagTypes map[string]types.Type
 	// struct datatypes already emitted, by sort name
 	structs map[string]*types.Struct
 	sdecl   map[string]string // struct sort -> constructor declaration
@@ -54,7 +55,7 @@ type Decls struct {
 }
 
 func newDecls() *Decls {
-	return &Decls{text: map[string]string{}, tags: map[string]int{}, structs: map[string]*types.Struct{}, sdecl: map[string]string{}, boxes: map[string]bool{}, ntag: 0}
+	return &Decls{text: map[string]string{}, tags: map[string]int{}, tagTypes: map[string]types.Type{}, structs: map[string]*types.Struct{}, sdecl: map[string]string{}, boxes: map[string]bool{}, ntag: 0}
 }
 
 func (d *Decls) add(key, text string) {
@@ -258,6 +259,7 @@ func (d *Decls) tagOf(t types.Type) string {
 			}
 		}
 		d.tags[n] = v
+		d.tagTypes[n] = t
 		d.add("tag:"+n, fmt.Sprintf("(define-fun %s () Int %d)", n, v))
 	}
 	return n
